@@ -245,3 +245,19 @@ func Leave(id string) {
 	delete(inflight.ids, id)
 	inflight.mu.Unlock()
 }
+
+// SampledKinds: the kinds whose first case is written into the evidence samples.
+var SampledKinds = map[string]bool{"ctgb/multi": true, "stream_join": true, "outer_join/full": true, "order_by/limit": true,
+	"sql/group_by_time": true, "event_time_buffer": true, "sql/join>group_by": true, "sql/tumble>group_by": true}
+
+// Truncated copies a replay object with long strings cut to max bytes (for evidence samples).
+func Truncated(m map[string]interface{}, max int) map[string]interface{} {
+	out := map[string]interface{}{}
+	for k, v := range m {
+		if s, ok := v.(string); ok && len(s) > max {
+			v = s[:max] + "..."
+		}
+		out[k] = v
+	}
+	return out
+}
